@@ -7,6 +7,50 @@ def pairs : List Float → List (Float × Float)
   | a :: e :: rest => (a, e) :: pairs rest
   | _ => []
 
+def storeStr : MaskStore → String
+  | .none => "none"
+  | .junk => "junk"
+  | .table tbl => tbl.foldl (fun s p => s ++ "," ++ fToStr p.1 ++ "," ++ fToStr p.2) ("t" ++ toString tbl.length)
+
+def replyStr : MaskReply → String
+  | .done => "ok"
+  | .value v => fToStr v
+  | .indexError => "index-error"
+  | .noMask => "no-mask"
+  | .typeError => "type-error"
+
+def takeTable : List String → Option (List (Float × Float) × List String)
+  | n :: rest =>
+    match n.toNat? with
+    | some n => (takeFloats (2 * n) rest).map (fun fr => (pairs fr.1, fr.2))
+    | none => none
+  | [] => none
+
+def parseArg : List String → Option (MaskArg × List String)
+  | "absent" :: rest => some (.absent, rest)
+  | "eseq" :: rest => some (.emptySeq, rest)
+  | "seq" :: rest => (takeTable rest).map (fun tr => (.seq tr.1, tr.2))
+  | "arr" :: rest => (takeTable rest).map (fun tr => (.arr tr.1, tr.2))
+  | _ => none
+
+def parseOps : Nat → List String → Option (List MaskOp)
+  | _, [] => some []
+  | 0, _ => none
+  | fuel + 1, "A" :: rest =>
+    match takeTable rest with
+    | some (t, r) => (parseOps fuel r).map (fun ops => MaskOp.assign t :: ops)
+    | none => none
+  | fuel + 1, "N" :: rest => (parseOps fuel rest).map (fun ops => MaskOp.clear :: ops)
+  | fuel + 1, "P" :: i :: a :: e :: rest =>
+    match i.toNat?, fOfStr? a, fOfStr? e with
+    | some i, some a, some e => (parseOps fuel rest).map (fun ops => MaskOp.poke i (a, e) :: ops)
+    | _, _, _ => none
+  | fuel + 1, "Q" :: x :: rest =>
+    match fOfStr? x with
+    | some x => (parseOps fuel rest).map (fun ops => MaskOp.query x :: ops)
+    | none => none
+  | _, _ => none
+
 /-- requests (floats as bit patterns):
  `c11const`                                   → earthR earthF earthE
  `c11create latd lond alt`                    → `create_station` from degrees: centre offset (3), orientation matrix (9), stored radians/alt (3)
@@ -16,7 +60,11 @@ def pairs : List Float → List (Float × Float)
  `c11back latd lond alt x y z vx vy vz`         → station-frame cartesian state expressed in the parent frame
  `c11meas kind npath latd lond alt x y z vx vy vz` → value of the measure (0 Range 1 Azimut 2 Elevation 3 Doppler)
  `c11expand m00 … m22 r0 r1 r2 x y z vx vy vz` → `expand(m, rate) @ state`
- `c11mask n a1 e1 … an en azim`               → `get_mask(azim)` or `index-error` -/
+ `c11mask n a1 e1 … an en azim`               → `get_mask(azim)` or `index-error`
+ `c11maskrun <arg> <op>*`                     → a station created with `mask=<arg>` then driven through the operations:
+      <arg> = `absent` | `eseq` | `seq n a1 e1 … an en` | `arr n a1 e1 … an en`;
+      <op> = `A n a1 e1 …` (assign a table) | `N` (assign None) | `P i a e` (write column i in place) | `Q azim` (get_mask);
+      reply `raises` or `<store after construction> | <reply>* | <final store>` with <store> = `none` | `junk` | `t<n>,a1,e1,…` -/
 def handle : List String → Option String
   | ["c11const"] => some (fsToStr [earthR, earthF, earthE])
   | "c11geo" :: rest => some <|
@@ -63,6 +111,16 @@ def handle : List String → Option String
         | some v => fToStr v
         | none => "index-error"
       | _ => "bad-op"
+    | none => "bad-op"
+  | "c11maskrun" :: rest => some <|
+    match parseArg rest with
+    | some (arg, r) =>
+      match parseOps r.length r with
+      | some ops =>
+        match stationMaskRun arg ops with
+        | none => "raises"
+        | some (s0, s1, replies) => joinWith " " ([storeStr s0, "|"] ++ replies.map replyStr ++ ["|", storeStr s1])
+      | none => "bad-op"
     | none => "bad-op"
   | _ => none
 
